@@ -16,7 +16,9 @@ func decodeCustomSection(r *bytes.Reader, name string, limit uint64) (result *wa
 		limit = uint64(r.Len())
 	}
 	buf := make([]byte, limit)
-	_, err = r.Read(buf)
+	if limit > 0 { // bytes.Reader.Read reports io.EOF at the end of the input even when asked for zero bytes.
+		_, err = r.Read(buf)
+	}
 
 	result = &wasm.CustomSection{
 		Name: name,
